@@ -42,6 +42,19 @@
 (*        steps (TProps).  Open: how the notifications of different kinds      *)
 (*        interleave within a burst (the projection re-pairs the j-th balance  *)
 (*        with the j-th trade notification).                                   *)
+(*   a burst line with "hang" > 0 is a HANG-UP, the end of an exchange's life:  *)
+(*        its k >= 1 requests are open orders nobody waits for ("out":"lost")  *)
+(*        and after them the LAST REQUEST SENDER was dropped while the orders  *)
+(*        were still inside the exchange's latency window; only the account    *)
+(*        stream was still listened to.  For the specification nothing special *)
+(*        happens (a request is served the same way whatever its requester     *)
+(*        does afterwards; going away is not a step of the exchange): the line *)
+(*        is the burst of its requests.  The ledger cannot be observed any     *)
+(*        more (`post` repeats the last one and is not judged) - what is       *)
+(*        judged is the notification history: one balance and one trade        *)
+(*        notification per order the specification accepts, with the balance   *)
+(*        after that order; id and clock reading are read off the trade        *)
+(*        notification the order has to leave.                                 *)
 (* Amounts are integers in 1/100 units, times in ms.                         *)
 (* A line that is not a step of the spec is recorded in `bad` together with  *)
 (* the names of the clauses of C08 it breaks (`why`), and the logged state   *)
@@ -159,7 +172,7 @@ PostChecks(x, p) ==
 (* before it is the one the specification reached through the earlier requests of the burst, so *)
 (* p must be exactly what MockExchange!Accept (AfterBal, AfterTrades, AfterNotif) / a rejection *)
 (* or query (nothing) makes of it.  The clauses name WHAT differs of the k-fold composition.    *)
-BurstChecks(x, p) ==
+BurstChecks(x, p, h) ==
   LET r   == ReqOf(x)
       acc == x.out = "ok"
       pb  == BalOf(p.bal)
@@ -167,14 +180,14 @@ BurstChecks(x, p) ==
       eb  == IF acc THEN AfterBal(r) ELSE bal
       et  == IF acc THEN AfterTrades(r, x.id, x.rt) ELSE trades
       en  == IF acc THEN AfterNotif(r, x.id, x.rt) ELSE notif
-  IN [ BurstLedger  |-> pb = eb,
-       BurstFills   |-> p.trades = et,
-       NonNegative  |-> \A a \in Assets : pb[a].free >= 0 /\ pb[a].total >= 0 /\ pb[a].total = pb[a].free,
+  IN [ BurstLedger  |-> h > 0 \/ pb = eb,                \* (after a hang-up the ledger is not observable)
+       BurstFills   |-> h > 0 \/ p.trades = et,
+       NonNegative  |-> h > 0 \/ \A a \in Assets : pb[a].free >= 0 /\ pb[a].total >= 0 /\ pb[a].total = pb[a].free,
        \* one balance and one trade notification per accepted order of the burst, nothing else
        Notif11      |-> Len(pn) = Len(en) /\ \A i \in 1..Len(pn) : pn[i].k = en[i].k,
        \* ... in queue order, the balance notification carrying the balance after THAT order
        NotifContent |-> (Len(pn) = Len(en) /\ \A i \in 1..Len(pn) : pn[i].k = en[i].k) => pn = en,
-       OrdersUnchanged |-> SetOf(p.open) = orders ]
+       OrdersUnchanged |-> h > 0 \/ SetOf(p.open) = orders ]
 
 FailingOf(c) == {n \in DOMAIN c : ~c[n]}
 Failing(y) == LET x == Eff(y) IN FailingOf(RespChecks(x)) \cup FailingOf(PostChecks(x, x.post))
@@ -218,10 +231,21 @@ TStepBad == /\ Single(Rec[l])
             /\ why' = Append(why, [l |-> l, f |-> Failing(Rec[l]), j |-> 0])
 
 (* ---- a burst line: one checker step per request, the spec's own action every time ---- *)
-Item       == Rec[l].reqs[j]
+\* a request nobody waited for (hang-up lines), completed with the answer the specification gives;
+\* id and clock are those of the trade notification it has to leave (the next pair of the history)
+HEff(x) == IF x.out # "lost" THEN x
+           ELSE IF ~up THEN [x EXCEPT !.out = "offline"]
+           ELSE LET pn == Rec[l].post.notif
+                    n0 == Len(notif)
+                    f  == IF Len(pn) >= n0 + 2 /\ pn[n0 + 2].k = "trade" THEN pn[n0 + 2].trade
+                          ELSE [NoFill EXCEPT !.id = nextId, !.t = NowAfter(ReqOf(x))]
+                IN IF Accepts(ReqOf(x))
+                   THEN [x EXCEPT !.out = "ok", !.id = f.id, !.filled = x.q, !.rt = f.t]
+                   ELSE [x EXCEPT !.out = "rej"]
+Item       == HEff(Rec[l].reqs[j])
 BurstLen   == Len(Rec[l].reqs)
 BurstFailing == IF j < BurstLen THEN FailingOf(RespChecks(Item))
-                ELSE FailingOf(RespChecks(Item)) \cup FailingOf(BurstChecks(Item, Rec[l].post))
+                ELSE FailingOf(RespChecks(Item)) \cup FailingOf(BurstChecks(Item, Rec[l].post, Rec[l].hang))
 
 \* a request of the burst that is not the last: judged by its answer; the ledger it leaves is
 \* the specification's (nobody observed it)
@@ -236,7 +260,8 @@ TBurstMid == /\ Rec[l].a = "burst" /\ j < BurstLen /\ ~skip
 TBurstLast == /\ Rec[l].a = "burst" /\ j = BurstLen /\ ~skip
               /\ BurstFailing = {}
               /\ Serve(ReqOf(Item), Item.id, ClockOf(Item), Item.out)
-              /\ ObservedPost(Rec[l].post) /\ ObservedResp(Item)
+              /\ IF Rec[l].hang > 0 THEN notif' = Rec[l].post.notif ELSE ObservedPost(Rec[l].post)
+              /\ ObservedResp(Item)
               /\ l' = l + 1 /\ j' = 1 /\ skip' = FALSE
               /\ UNCHANGED <<bad, why>>
 
